@@ -25,13 +25,13 @@ Definition h_safe : list op :=
     OLoad 2 true [(S "inner", JDict [(S "MyVal", JInt 2); (S "s", JNull)]); (S "X-Y", JStr (S "7"))];
     OLoad 2 true [(S "inner", JDict [(S "my_val", JInt 2); (S "s", JNull); (S "zz", JNull)])];
     OLoad 2 false [(S "inner", JDict [(S "my_val", JInt 2); (S "s", JNull); (S "zz", JNull)])];
-    ODump true (VInst 3 [(S "inner", VInst 1 [(S "my_val", VInt 1); (S "s", VSub (Build_vtype [2;1] KObj) 4)]);
-                         (S "x_y", VInt 3); (S "z", VSub (Build_vtype [1] KInt) 7)]);
-    ODump true (VInst 2 [(S "inner", VInst 1 [(S "my_val", VInt 5); (S "s", VSub (Build_vtype [1] KObj) 4)]); (S "x_y", VInt 4)]);
+    ODump true (VInst 3 [(S "inner", VInst 1 [(S "my_val", VInt 1); (S "s", VSub (Build_vtype [] [2;1] KObj) 4)]);
+                         (S "x_y", VInt 3); (S "z", VSub (Build_vtype [1] [] KInt) 7)]);
+    ODump true (VInst 2 [(S "inner", VInst 1 [(S "my_val", VInt 5); (S "s", VSub (Build_vtype [] [1] KObj) 4)]); (S "x_y", VInt 4)]);
     OLoad 4 false [(S "A1", JStr (S "x"))];
-    ODump false (VInst 4 [(S "a1", VSub (Build_vtype [3;1] KStr) 9)]) ].
+    ODump false (VInst 4 [(S "a1", VSub (Build_vtype [] [3;1] KStr) 9)]) ].
 Definition o_safe : op :=
-  ODump false (VInst 2 [(S "inner", VInst 1 [(S "my_val", VInt 1); (S "s", VSub (Build_vtype [3;2;1] KObj) 4)]); (S "x_y", VInt 4)]).
+  ODump false (VInst 2 [(S "inner", VInst 1 [(S "my_val", VInt 1); (S "s", VSub (Build_vtype [] [3;2;1] KObj) 4)]); (S "x_y", VInt 4)]).
 
 (* ---- strict setting: the same offending document, three times *)
 Definition h_strict : list op :=
